@@ -20,6 +20,7 @@ class ClassInfo:
         for st in node.body:
             if isinstance(st, ast.AnnAssign) and isinstance(st.target, ast.Name):
                 self.fields[st.target.id] = ast.unparse(st.annotation)
+        self.is_dataclass = any("dataclass" in ast.unparse(d) for d in node.decorator_list)
         self.methods: dict[str, ast.AST] = {}
         for st in node.body:
             if isinstance(st, (ast.FunctionDef, ast.AsyncFunctionDef)):
@@ -43,6 +44,14 @@ class ClassInfo:
         res: dict[str, str] = {}
         for c in reversed(self.mro()):
             res.update(c.fields)
+        return res
+
+    def dataclass_fields(self) -> dict[str, str]:
+        """constructor parameters of a dataclass in order (fields of dataclass bases first)"""
+        res: dict[str, str] = {}
+        for c in reversed(self.mro()):
+            if c.is_dataclass:
+                res.update(c.fields)
         return res
 
     def find_method(self, name: str):
